@@ -336,6 +336,136 @@ theorem verifyUpgrade_consumed' (C : Crypto) (fork start len : Nat) (na nb : Lis
     verifyUpgrade C fork ⟨start, len, na ++ nb, [], sig⟩ (some x) pk cs = .ok (true, cs') :=
   verifyUpgrade_consumed C fork ⟨start, len, na ++ x :: nb, [], sig⟩ x pk cs cs' na nb rfl hd rfl st hst hempty c h
 
+/-! ### every node the upgrade takes from its queue is recorded in the changeset -/
+
+theorem appendRoot_pushes (C : Crypto) (cs : Changeset) (n : Node) (it : Iter) :
+    ∃ U, (appendRoot C cs n it).1.rnodes = U ++ n :: cs.rnodes := by
+  obtain ⟨U, hU⟩ := mergeLoop_suffix C (cs.roots.length + 1) (n :: cs.roots.reverse) (n :: cs.rnodes) it
+  exact ⟨U, by simp only [appendRoot]; rw [hU]⟩
+
+/-- what a run of the queue loops has taken (`taken`, oldest first) is in the changeset, in front of what was there -/
+def Pushed (cs : Changeset) (q : NodeQueue) (cs' : Changeset) (q' : NodeQueue) : Prop :=
+  ∃ taken, q.nodes = taken ++ q'.nodes ∧ (∀ x ∈ taken, x ∈ cs'.rnodes) ∧ (∃ U, cs'.rnodes = U ++ cs.rnodes) ∧ q'.extra = none
+
+theorem shift_plain_nodes (q : NodeQueue) (hq : q.extra = none) (idx : Nat) (n : Node) (q' : NodeQueue) (hs : q.shift idx = .ok (n, q')) :
+    q.nodes = n :: q'.nodes ∧ q'.extra = none := by
+  unfold NodeQueue.shift at hs
+  rw [hq] at hs
+  simp only [] at hs
+  cases hn : q.nodes with
+  | nil => rw [hn] at hs; cases hs
+  | cons a rest =>
+    rw [hn] at hs
+    simp only [] at hs
+    by_cases ha : a.index ≠ idx
+    · simp [ha] at hs
+    · have ha' : a.index = idx := by simpa using ha
+      simp only [ha', ne_eq, not_true_eq_false, ite_false, Except.ok.injEq, Prod.mk.injEq] at hs
+      obtain ⟨rfl, rfl⟩ := hs
+      exact ⟨rfl, rfl⟩
+
+theorem pushed_step (C : Crypto) (cs : Changeset) (q : NodeQueue) (n : Node) (q1 : NodeQueue) (it : Iter) (cs' : Changeset) (q' : NodeQueue)
+    (h1 : q.nodes = n :: q1.nodes) (h2 : Pushed (appendRoot C cs n it).1 q1 cs' q') : Pushed cs q cs' q' := by
+  obtain ⟨taken, t1, t2, ⟨U, t3⟩, t4⟩ := h2
+  obtain ⟨V, hV⟩ := appendRoot_pushes C cs n it
+  refine ⟨n :: taken, by rw [h1, t1]; rfl, ?_, ⟨U ++ V ++ [n], by rw [t3, hV]; simp⟩, t4⟩
+  intro x hx
+  rcases List.mem_cons.mp hx with rfl | hx
+  · rw [t3, hV]; simp
+  · exact t2 x hx
+
+theorem growLoop_pushed (C : Crypto) (ri : Nat) : ∀ (fuel : Nat) (cs : Changeset) (it : Iter) (q : NodeQueue) (cs' : Changeset) (it' : Iter) (q' : NodeQueue),
+    q.extra = none → growLoop C ri fuel cs it q = .ok (cs', it', q') → Pushed cs q cs' q' := by
+  intro fuel
+  induction fuel with
+  | zero => intro cs it q cs' it' q' _ h; simp [growLoop] at h
+  | succ fuel ih =>
+    intro cs it q cs' it' q' hq h
+    simp only [growLoop] at h
+    by_cases hi : it.index = ri
+    · simp only [hi, ite_true, Except.ok.injEq, Prod.mk.injEq] at h
+      obtain ⟨rfl, rfl, rfl⟩ := h
+      exact ⟨[], rfl, (fun x hx => by cases hx), ⟨[], rfl⟩, hq⟩
+    · simp only [hi, ite_false] at h
+      cases hs : q.shift it.sibling.index with
+      | error e => rw [hs] at h; cases h
+      | ok pr =>
+        obtain ⟨n, q1⟩ := pr
+        rw [hs] at h
+        simp only [] at h
+        obtain ⟨e1, e2⟩ := shift_plain_nodes q hq _ n q1 hs
+        exact pushed_step C cs q n q1 _ cs' q' e1 (ih _ _ q1 cs' it' q' e2 h)
+
+theorem pushed_trans (cs : Changeset) (q : NodeQueue) (cs1 : Changeset) (q1 : NodeQueue) (cs' : Changeset) (q' : NodeQueue)
+    (h1 : Pushed cs q cs1 q1) (h2 : Pushed cs1 q1 cs' q') : Pushed cs q cs' q' := by
+  obtain ⟨ta, a1, a2, ⟨U, a3⟩, _⟩ := h1
+  obtain ⟨tb, b1, b2, ⟨V, b3⟩, b4⟩ := h2
+  refine ⟨ta ++ tb, by rw [a1, b1, List.append_assoc], ?_, ⟨V ++ U, by rw [b3, a3, List.append_assoc]⟩, b4⟩
+  intro x hx
+  rcases List.mem_append.mp hx with hx | hx
+  · rw [b3]; exact List.mem_append.mpr (Or.inr (a2 x hx))
+  · exact b2 x hx
+
+theorem upgradeRoots_pushed (C : Crypto) (upto : Nat) : ∀ (fuel : Nat) (cs : Changeset) (it0 : Iter) (q : NodeQueue) (i : Nat) (g : Bool) (st' : UpState),
+    q.extra = none → upgradeRoots C upto fuel ⟨cs, it0, q, i, g⟩ = .ok st' → Pushed cs q st'.cs st'.q := by
+  intro fuel
+  induction fuel with
+  | zero => intro cs it0 q i g st' _ h; simp [upgradeRoots] at h
+  | succ fuel ih =>
+    intro cs it0 q i g st' hq h
+    simp only [upgradeRoots] at h
+    generalize hfr : it0.fullRoot upto = fr at h
+    obtain ⟨full, it⟩ := fr
+    simp only [] at h
+    by_cases hfull : (!full) = true
+    · simp only [hfull, ite_true, Except.ok.injEq] at h
+      subst h
+      exact ⟨[], rfl, (fun x hx => by cases hx), ⟨[], rfl⟩, hq⟩
+    · simp only [hfull, Bool.false_eq_true, ite_false] at h
+      by_cases hm : i < cs.roots.length ∧ (cs.roots.getD i default).index = it.index
+      · simp only [hm, and_self, ite_true] at h
+        exact ih cs it.nextTree q (i + 1) g st' hq h
+      · simp only [hm, ite_false] at h
+        by_cases hg : g = true ∧ i < cs.roots.length
+        · simp only [hg, and_self, ite_true] at h
+          cases hgl : growLoop C it.index (q.nodes.length + 3) cs (Iter.new (cs.roots.getLast?.getD default).index) q with
+          | error e => rw [hgl] at h; cases h
+          | ok pr =>
+            obtain ⟨cs1, it1, q1⟩ := pr
+            rw [hgl] at h
+            simp only [] at h
+            have p1 := growLoop_pushed C it.index _ _ _ q cs1 it1 q1 hq hgl
+            exact pushed_trans cs q cs1 q1 st'.cs st'.q p1 (ih cs1 it1.nextTree q1 i false st' (by obtain ⟨_, _, _, _, e⟩ := p1; exact e) h)
+        · simp only [hg, ite_false] at h
+          cases hs : q.shift it.index with
+          | error e => rw [hs] at h; cases h
+          | ok pr =>
+            obtain ⟨n, q1⟩ := pr
+            rw [hs] at h
+            simp only [] at h
+            obtain ⟨e1, e2⟩ := shift_plain_nodes q hq _ n q1 hs
+            exact pushed_step C cs q n q1 _ st'.cs st'.q e1 (ih _ _ q1 i false st' e2 h)
+
+/-- the changeset of a plain upgrade without additional nodes is the one of its root loop, up to fork, hash and signature -/
+theorem verifyUpgrade_rnodes (C : Crypto) (fork : Nat) (u : DataUpgrade) (pk : Bytes) (cs : Changeset) (hadd : u.additionalNodes = []) (st : UpState)
+    (hst : upgradeRoots C (2 * (u.start + u.length)) (2 * (u.start + u.length) + 2) ⟨cs, Iter.new 0, NodeQueue.new u.nodes none, 0, !cs.roots.isEmpty⟩ = .ok st)
+    (c : Bool) (cs' : Changeset) (h : verifyUpgrade C fork u none pk cs = .ok (c, cs')) : cs'.rnodes = st.cs.rnodes := by
+  rw [verifyUpgrade_noadd C fork u none pk cs hadd, hst] at h
+  simp only [andThen] at h
+  cases hl : st.cs.roots.getLast? with
+  | none => rw [hl] at h; cases h
+  | some last =>
+    rw [hl] at h
+    simp only [] at h
+    unfold checkSignature at h
+    simp only [] at h
+    split at h
+    · cases h
+    · split at h
+      · cases h
+      · simp only [Except.ok.injEq, Prod.mk.injEq] at h
+        rw [← h.2]
+
 /-! ### the honest position list covers `[m, n)` -/
 
 theorem cover_append {l1 l2 : List (Nat × Nat)} {a b c : Nat} (h1 : Cover l1 a b) (h2 : Cover l2 b c) : Cover (l1 ++ l2) a c := by
@@ -388,6 +518,67 @@ theorem cover_before : ∀ (a : List (Nat × Nat)) (p : Nat × Nat) (b : List (N
       exact this
     · exact ih p b _ e hrest q hq
 
+/-! ### the order in which reference nodes are inserted does not matter -/
+
+theorem ref_unique (C : Crypto) (bs : Array Bytes) (x y : Node) (hx : ∃ d o, x = nodeAt C bs d o) (hy : ∃ d o, y = nodeAt C bs d o)
+    (h : x.index = y.index) : x = y := by
+  obtain ⟨d, o, rfl⟩ := hx
+  obtain ⟨d', o', rfl⟩ := hy
+  obtain ⟨rfl, rfl⟩ := index_inj _ _ _ _ (show Flat.index d o = Flat.index d' o' from h)
+  rfl
+
+theorem insertAll_two_orders (C : Crypto) (bs : Array Bytes) (u : NMap) (A B : List Node) (hA : ∀ n ∈ A, ∃ d o, n = nodeAt C bs d o)
+    (hB : ∀ n ∈ B, ∃ d o, n = nodeAt C bs d o) (i : Nat) :
+    (insertAll (insertAll u A) B)[i]? = (insertAll (insertAll u B) A)[i]? := by
+  by_cases hb : ∃ n ∈ B, n.index = i
+  · obtain ⟨y, hy, hyi, hget⟩ := insertAll_hit B (insertAll u A) i hb
+    rw [hget]
+    by_cases ha : ∃ n ∈ A, n.index = i
+    · obtain ⟨y', hy', hyi', hget'⟩ := insertAll_hit A (insertAll u B) i ha
+      rw [hget', ref_unique C bs y y' (hB y hy) (hA y' hy') (by rw [hyi, hyi'])]
+    · rw [insertAll_miss A _ i (fun n hn e => ha ⟨n, hn, e⟩)]
+      obtain ⟨y2, hy2, hyi2, hget2⟩ := insertAll_hit B u i hb
+      rw [hget2, ref_unique C bs y y2 (hB y hy) (hB y2 hy2) (by rw [hyi, hyi2])]
+  · rw [insertAll_miss B _ i (fun n hn e => hb ⟨n, hn, e⟩)]
+    by_cases ha : ∃ n ∈ A, n.index = i
+    · obtain ⟨y1, hy1, hyi1, hget1⟩ := insertAll_hit A u i ha
+      obtain ⟨y', hy', hyi', hget'⟩ := insertAll_hit A (insertAll u B) i ha
+      rw [hget1, hget', ref_unique C bs y1 y' (hA y1 hy1) (hA y' hy') (by rw [hyi1, hyi'])]
+    · rw [insertAll_miss A _ i (fun n hn e => ha ⟨n, hn, e⟩), insertAll_miss A _ i (fun n hn e => ha ⟨n, hn, e⟩),
+        insertAll_miss B _ i (fun n hn e => hb ⟨n, hn, e⟩)]
+
+/-- a block path hanging on a stored node, inserted *before* the other new nodes: the tree is closed again and stores the leaf -/
+theorem closedAt_with_path (C : Crypto) (hC : HashWF C) (bs : Array Bytes) (n : Nat) (hn : n ≤ bs.size) (t0 : Tree) (f : File) (G : List Node) (L : Nat)
+    (hG : ∀ x ∈ G, ∃ d o, x = nodeAt C bs d o)
+    (T : Tree) (hT : T.unflushed = insertAll t0.unflushed G) (hTl : T.length = L) (hcl : ClosedAt C bs n T f)
+    (i k : Nat) (hstored : T.node? f (Flat.index k (i / 2 ^ k)) = some (nodeAt C bs k (i / 2 ^ k))) (hin : (i / 2 ^ k + 1) * 2 ^ k ≤ n)
+    (T' : Tree) (hT' : T'.unflushed = insertAll t0.unflushed ((nodeAt C bs 0 i :: downPath C bs 0 i k) ++ G)) (hTl' : T'.length = L) :
+    ClosedAt C bs n T' f ∧ T'.node? f (Flat.index 0 i) = some (nodeAt C bs 0 i) := by
+  have hsz := size_extract bs n hn
+  have hin0 : (i / 2 ^ k + 1) * 2 ^ (0 + k) ≤ n := by simpa using hin
+  have hspan := span_le i 0 k
+  have hcl' := (closed_extract C bs n hn T f).mpr hcl
+  have hst' : T.node? f (Flat.index (0 + k) (i / 2 ^ k)) = some (nodeAt C (bs.extract 0 n) (0 + k) (i / 2 ^ k)) := by
+    rw [Nat.zero_add, nodeAt_extract C bs n hn k (i / 2 ^ k) hin]; exact hstored
+  -- the tree with the path inserted last
+  have hpc := path_commit_closed C hC (bs.extract 0 n) T f hcl' 0 i k hst' (by rw [hsz]; exact hin0)
+    { T with unflushed := insertAll T.unflushed (nodeAt C (bs.extract 0 n) 0 i :: downPath C (bs.extract 0 n) 0 i k) } rfl rfl
+  rw [downPath_extract C bs n hn k 0 i hin0, nodeAt_extract C bs n hn 0 i (by simp only [Nat.pow_zero, Nat.mul_one] at hspan ⊢; omega)] at hpc
+  obtain ⟨hc2, hleaf, _⟩ := hpc
+  have hc3 := (closed_extract C bs n hn _ f).mp hc2
+  have hP : ∀ x ∈ (nodeAt C bs 0 i :: downPath C bs 0 i k), ∃ d o, x = nodeAt C bs d o := by
+    intro x hx
+    obtain ⟨dd, o, e, _⟩ := pathNodes_bound C bs 0 i k n hin0 x hx
+    exact ⟨dd, o, e⟩
+  have hlook : ∀ j, T'.node? f j = ({ T with unflushed := insertAll T.unflushed (nodeAt C bs 0 i :: downPath C bs 0 i k) } : Tree).node? f j := by
+    intro j
+    apply node?_congr
+    rw [hT', hT, insertAll_append]
+    exact insertAll_two_orders C bs t0.unflushed _ G hP hG j
+  refine ⟨closedAt_congr C bs n _ T' f f hc3 hlook (by rw [hTl', ← hTl]), ?_⟩
+  rw [hlook]
+  exact hleaf
+
 /-! ### the honest answer to "block `i` of the new part and upgrade me from `m` to `n`" -/
 
 /-- **an honest block + upgrade proof whose block lies in the new part passes `verify_proof`**: the block's subtree root is
@@ -405,7 +596,10 @@ theorem honest_new_block_upgrade_accepted (C : Crypto) (hC : HashWF C) (bs : Arr
           ⟨c.tree.fork, some ⟨i, bs.getD i [], sibPath C bs 0 i k⟩, none, none,
             some ⟨m, n - m, (a ++ b).map (fun p => nodeAt C bs p.1 p.2), [], sig⟩⟩ c.publicKey = .ok cs'
       ∧ cs'.roots = rootsAt C bs n ∧ cs'.length = n ∧ cs'.byteLength = psum bs n ∧ cs'.upgraded = true ∧ cs'.signature = some sig
-      ∧ cs'.fork = c.tree.fork ∧ c.tree.commitable cs' = true ∧ (∀ x ∈ cs'.rnodes, ∃ dd o, x = nodeAt C bs dd o) := by
+      ∧ cs'.fork = c.tree.fork ∧ c.tree.commitable cs' = true ∧ (∀ x ∈ cs'.nodes, ∃ dd o, x = nodeAt C bs dd o ∧ (o + 1) * 2 ^ dd ≤ n)
+      ∧ ClosedAt C bs n (vt c.tree cs') d.tree ∧ nodeAt C bs 0 i ∈ cs'.nodes
+      ∧ cs'.ancestors = c.tree.length ∧ cs'.origLength = c.tree.length ∧ cs'.hash = some (rootsHash C cs'.roots)
+      ∧ cs'.nodes.length ≤ 64 + 2 * us.length + (2 * k + 1) := by
   have hN : n < 2 ^ 64 := by have := h.small.1; omega
   have hcov := up_cover m n _ 0 us (cover_roots n) hup
   obtain ⟨p, hp, hp1, hp2⟩ := cover_find hcov i hmi hi
@@ -420,7 +614,7 @@ theorem honest_new_block_upgrade_accepted (C : Crypto) (hC : HashWF C) (bs : Arr
   rw [hdiv]
   -- the plain upgrade from the replica's own changeset
   have hinv0 := inv_changeset C bs m c d held h
-  obtain ⟨csg, g1, g2, g4, g5, g7, g8, g9, g10, g11, _, _⟩ := grow_upgrade_accepted C hC bs c.tree d.tree m n hN hm0 hmn c.tree.fork c.publicKey sig
+  obtain ⟨csg, g1, g2, g4, g5, g7, g8, g9, g10, g11, g12, _⟩ := grow_upgrade_accepted C hC bs c.tree d.tree m n hN hm0 hmn c.tree.fork c.publicKey sig
     c.tree.changeset hinv0 _ hup hsl hver
   obtain ⟨st, s1, _, s3⟩ := grow_upgradeRoots_all C hC bs c.tree d.tree m n hN hm0 hmn c.tree.changeset hinv0 _ hup
   have hmn' : m + (n - m) = n := by omega
@@ -443,6 +637,15 @@ theorem honest_new_block_upgrade_accepted (C : Crypto) (hC : HashWF C) (bs : Arr
     refine verifyUpgrade_consumed' C c.tree.fork m (n - m) _ _ _ sig c.publicKey c.tree.changeset csg hd st ?_ s3 true ?_
     · exact s1
     · exact g1
+  -- the node the block hangs on is recorded by the upgrade
+  have hRin : nodeAt C bs k o ∈ csg.rnodes := by
+    obtain ⟨taken, t1, t2, _, _⟩ := upgradeRoots_pushed C _ _ c.tree.changeset (Iter.new 0) _ 0 _ st rfl s1
+    rw [s3, List.append_nil] at t1
+    rw [verifyUpgrade_rnodes C c.tree.fork ⟨m, n - m, a.map (fun p => nodeAt C bs p.1 p.2) ++ nodeAt C bs k o :: b.map (fun p => nodeAt C bs p.1 p.2), [], sig⟩
+      c.publicKey c.tree.changeset rfl st s1 true csg g1]
+    apply t2
+    rw [← t1]
+    simp [NodeQueue.new]
   have hadd := verifyUpgrade_addOld C (upPath C bs 0 i k ++ [nodeAt C bs 0 i]) c.tree.fork
     ⟨m, n - m, a.map (fun p => nodeAt C bs p.1 p.2) ++ b.map (fun p => nodeAt C bs p.1 p.2), [], sig⟩ (some (nodeAt C bs k o)) c.publicKey c.tree.changeset rfl true csg hcons
   have hcsb : addOld (upPath C bs 0 i k ++ [nodeAt C bs 0 i]) c.tree.changeset = { c.tree.changeset with rnodes := upPath C bs 0 i k ++ [nodeAt C bs 0 i] } := by
@@ -458,7 +661,30 @@ theorem honest_new_block_upgrade_accepted (C : Crypto) (hC : HashWF C) (bs : Arr
   have hrn : c.tree.changeset.rnodes = [] := rfl
   rw [hrn] at hc
   have hroots := inv_roots C bs c.tree d.tree csg n g2
-  refine ⟨addOld (upPath C bs 0 i k ++ [nodeAt C bs 0 i]) csg, rfl, hbound, hlow, ?_, hroots, g2.length, g2.bytes, g7, g5, g4, ?_, ?_⟩
+  have hnodes' : (addOld (upPath C bs 0 i k ++ [nodeAt C bs 0 i]) csg).nodes = (nodeAt C bs 0 i :: downPath C bs 0 i k) ++ csg.nodes := by
+    simp [Changeset.nodes, addOld, upPath_reverse]
+  have hGref : ∀ x ∈ csg.nodes, ∃ dd oo, x = nodeAt C bs dd oo ∧ (oo + 1) * 2 ^ dd ≤ n := by
+    intro x hx
+    exact g2.nodesRef x (by simpa [Changeset.nodes] using hx)
+  have hin0 : (i / 2 ^ k + 1) * 2 ^ (0 + k) ≤ n := by simpa [hdiv] using hbound
+  have hstoredR : (vt c.tree csg).node? d.tree (Flat.index k (i / 2 ^ k)) = some (nodeAt C bs k (i / 2 ^ k)) := by
+    rw [hdiv]
+    obtain ⟨hnew', _, _⟩ := insert_lookup C hC bs c.tree (vt c.tree csg) d.tree csg.nodes (fun x hx => by obtain ⟨dd, oo, e, _⟩ := hGref x hx; exact ⟨dd, oo, e⟩) rfl
+    exact hnew' k o (by simpa [Changeset.nodes] using hRin)
+  obtain ⟨hclosed, _⟩ := closedAt_with_path C hC bs n hn c.tree d.tree csg.nodes n (fun x hx => by obtain ⟨dd, oo, e, _⟩ := hGref x hx; exact ⟨dd, oo, e⟩)
+    (vt c.tree csg) rfl g2.length g2.closed i k hstoredR (by simpa [hdiv] using hbound)
+    (vt c.tree (addOld (upPath C bs 0 i k ++ [nodeAt C bs 0 i]) csg)) (by simp only [vt, hnodes']) g2.length
+  have hrl : c.tree.changeset.roots.length ≤ 64 := by
+    show c.tree.roots.length ≤ 64
+    rw [h.roots, rootsAt, List.length_map, List.length_reverse]
+    exact rootsStack_length_log 64 m (by omega)
+  have hupl : ∀ kk dd oo, (upPath C bs dd oo kk).length = 2 * kk := by
+    intro kk
+    induction kk with
+    | zero => intro dd oo; rfl
+    | succ kk ihk => intro dd oo; simp only [upPath, List.length_append, ihk, List.length_cons, List.length_nil]; omega
+  refine ⟨addOld (upPath C bs 0 i k ++ [nodeAt C bs 0 i]) csg, rfl, hbound, hlow, ?_, hroots, g2.length, g2.bytes, g7, g5, g4, ?_, ?_, hclosed, ?_,
+    by rw [show (addOld _ csg).ancestors = csg.ancestors from rfl, g10]; rfl, by rw [show (addOld _ csg).origLength = csg.origLength from rfl, g8]; rfl, g11, ?_⟩
   · unfold verifyProof
     simp only [verifyTree, untrustedOf, noSeekOf, Option.isNone_some, Bool.false_and, Bool.false_eq_true,
       ite_false, seekHalf, andThen, mainHalf, hnew, plainQueue_eq, hleaf, hrn, hc]
@@ -468,16 +694,15 @@ theorem honest_new_block_upgrade_accepted (C : Crypto) (hC : HashWF C) (bs : Arr
     have ho2 : csg.origFork = c.tree.fork := by rw [g9]; rfl
     simp [Tree.commitable, addOld, g7, ho1, ho2]
   · intro x hx
-    simp only [addOld, List.mem_append] at hx
-    rcases hx with hx | hx
-    · obtain ⟨dd, oo, e, _⟩ := g2.nodesRef x hx
-      exact ⟨dd, oo, e⟩
-    · have hx' : x ∈ (nodeAt C bs 0 i :: downPath C bs 0 i k) := by
-        rw [← upPath_reverse]
-        rcases hx with hx | hx
-        · exact List.mem_cons_of_mem _ (List.mem_reverse.mpr hx)
-        · simp only [List.mem_singleton] at hx; rw [hx]; exact List.mem_cons_self
-      obtain ⟨dd, oo, e, _⟩ := pathNodes_bound C bs 0 i k n (by simpa [hdiv] using hbound) x hx'
-      exact ⟨dd, oo, e⟩
+    rw [hnodes'] at hx
+    rcases List.mem_append.mp hx with hx | hx
+    · exact pathNodes_bound C bs 0 i k n hin0 x hx
+    · exact hGref x hx
+  · rw [hnodes']; simp
+  · have hl1 : c.tree.changeset.rnodes.length = 0 := rfl
+    have hdl : (downPath C bs 0 i k).length = 2 * k := by rw [← upPath_reverse, List.length_reverse]; exact hupl k 0 i
+    rw [hnodes']
+    simp only [List.length_append, List.length_cons, hdl, Changeset.nodes, List.length_reverse] at g12 ⊢
+    omega
 
 end HC.BlockNew
